@@ -121,6 +121,16 @@ def _sha_shape(fn: ast.FunctionDef | None) -> tuple[bool, bool]:
     return (sha_line is not None and comp_line is not None and sha_line < comp_line), ptr
 
 
+def _compression_block(fn: ast.FunctionDef | None) -> list[str]:
+    """Statements of the `if config.compression is not None:` block: what is uploaded and under which Content-Encoding."""
+    if fn is None:
+        return ["missing"]
+    for st in fn.body:
+        if isinstance(st, ast.If) and ast.unparse(st.test) == "config.compression is not None":
+            return [ast.unparse(x) for x in st.body] + (["else: " + ast.unparse(x) for x in st.orelse])
+    return ["missing"]
+
+
 def _returns_false_tests(fn: ast.FunctionDef | None) -> list[str]:
     if fn is None:
         return ["missing"]
@@ -208,6 +218,8 @@ def emit() -> dict[str, str]:
     g_batch = _guards(_fn(ext_tree, "maybe_externalize_batch"))
     sha_c, ptr_c = _sha_shape(_fn(ext_tree, "maybe_externalize_collector"))
     sha_b, ptr_b = _sha_shape(_fn(ext_tree, "maybe_externalize_batch"))
+    comp_c = _compression_block(_fn(ext_tree, "maybe_externalize_collector"))
+    comp_b = _compression_block(_fn(ext_tree, "maybe_externalize_batch"))
     cap, plus1, rtypes = _retry(_fn(ext_tree, "resolve_external_location"))
     ptr_tests = _returns_false_tests(_fn(ext_tree, "is_external_location_batch"))
     cls_tests = _classify_tests(_fn(wire_tree, "_dispatch_log_or_error"))
@@ -260,6 +272,11 @@ def shaBeforeCompression : Bool := {str(sha_c and sha_b).lower()}
 def serverPointerHasSha : Bool := {str(ptr_c and ptr_b).lower()}
 /-- `_build_pointer_request_body` (client upload-URL flow) puts sha256(original_body) on the pointer -/
 def clientPointerHasSha : Bool := {str(client_sha).lower()}
+
+/-- body of `if config.compression is not None:` in `maybe_externalize_collector` / `maybe_externalize_batch`: the uploaded
+bytes are ALWAYS the codec's output and the Content-Encoding is the codec's name (whatever the sizes) -/
+def collectorCompression : List String := {_strs(comp_c)}
+def batchCompression : List String := {_strs(comp_b)}
 
 /-- `is_external_location_batch` -/
 def pointerTests : List String := {_strs(ptr_tests)}
